@@ -284,7 +284,8 @@ func (e *C17) syncLevel(ctx *core.Ctx) {
 	rsB := kit.NewRS(s, eds, "foo-b", kit.Tpl("B"), kit.T0.Add(-time.Hour))
 	eds.Status.ActiveReplicaSet = "foo-b"
 	n := 4 + r.Intn(12)
-	mode := []string{"create", "update-delete", "cleanup"}[r.Intn(3)]
+	// "mixed": outdated pods on half of the nodes, none on the others - the same sync deletes and creates
+	mode := []string{"create", "update-delete", "cleanup", "mixed"}[r.Intn(4)]
 	role := "active"
 	if mode == "cleanup" && r.Intn(2) == 0 {
 		// canary role: foo-b is the canary replica set of an (absent) active foo-a, on all nodes
@@ -315,6 +316,10 @@ func (e *C17) syncLevel(ctx *core.Ctx) {
 		switch mode {
 		case "update-delete":
 			s.Inject(mk("old-"+name, "A", "OLDHASH"))
+		case "mixed":
+			if i%2 == 0 {
+				s.Inject(mk("old-"+name, "A", "OLDHASH"))
+			}
 		case "cleanup":
 			s.Inject(mk("cur-"+name, "B", rsB.Spec.TemplateGeneration))
 			s.Inject(mk("dup-"+name, "B", rsB.Spec.TemplateGeneration))
@@ -332,7 +337,7 @@ func (e *C17) syncLevel(ctx *core.Ctx) {
 	}
 	// in a third of the syncs another actor removes one of the pods between the sync's listing and
 	// its Delete (that Delete answers NotFound) while other calls of the same batch fail
-	oneGone := mode != "create" && r.Intn(3) == 0
+	oneGone := mode != "create" && mode != "mixed" && r.Intn(3) == 0
 	if oneGone {
 		jit := ctl.CERS.Hook
 		var once sync.Once
